@@ -643,7 +643,11 @@ func runOverlayTest(repo, pkgDir, src string, timeout time.Duration, extraEnv []
 	os.WriteFile(ovf, ovb, 0o644)
 	ctx, cancel := context.WithTimeout(context.Background(), timeout+30*time.Second)
 	defer cancel()
-	cmd := exec.CommandContext(ctx, "go", "test", "-overlay", ovf, "-vet=off", "-count=1", "-timeout", fmt.Sprintf("%ds", int(timeout.Seconds())), "-run", "^TestVerifReplay$", "-v", ".")
+	argv := []string{"test", "-overlay", ovf, "-vet=off", "-count=1", "-timeout", fmt.Sprintf("%ds", int(timeout.Seconds())), "-run", "^TestVerifReplay$", "-v", "."}
+	if strings.Contains(src, "//verif:race") {
+		argv = append([]string{"test", "-race"}, argv[1:]...)
+	}
+	cmd := exec.CommandContext(ctx, "go", argv...)
 	cmd.Dir = pkgDir
 	cmd.Env = append(os.Environ(), "GOFLAGS=-mod=mod", "GOPROXY=off", "GOSUMDB=off", "GOTOOLCHAIN=local")
 	cmd.Env = append(cmd.Env, extraEnv...)
@@ -1081,7 +1085,10 @@ func replayCustom(run *PropRun, g *ObGroup) ReplayOutcome {
 	}
 	out, err := runOverlayTest(run.Eng.Repo, pkgDir, g.ReplayGo, 60*time.Second, nil)
 	ro := ReplayOutcome{Ran: true, Output: tail(out, 3000)}
-	if strings.Contains(out, "VERIF-REPLAY-FAIL") {
+	if strings.Contains(g.ReplayGo, "//verif:race") && strings.Contains(out, "WARNING: DATA RACE") {
+		ro.Confirmed = true
+		ro.Detail = "the race detector reports a data race on the real code: " + firstLine(out[strings.Index(out, "WARNING: DATA RACE"):]) + " " + raceSummary(out)
+	} else if strings.Contains(out, "VERIF-REPLAY-FAIL") {
 		ro.Confirmed = true
 		ro.Detail = "replay on the real code reproduces the violation: " + firstLine(out[strings.Index(out, "VERIF-REPLAY-FAIL"):])
 	} else if strings.Contains(out, "VERIF-REPLAY-PASS") {
@@ -1140,4 +1147,15 @@ func cmdReplay(args []string) int {
 	os.Args = []string{"govc", "check", id, "quick"}
 	rc := cmdCheck([]string{id, "quick"})
 	return rc
+}
+
+func raceSummary(out string) string {
+	var fns []string
+	for _, ln := range strings.Split(out, "\n") {
+		t := strings.TrimSpace(ln)
+		if strings.HasPrefix(t, "github.com/gdamore/tcell/v2.") && strings.Contains(t, "tScreen") && len(fns) < 4 {
+			fns = append(fns, strings.TrimPrefix(t, "github.com/gdamore/tcell/v2."))
+		}
+	}
+	return strings.Join(fns, " / ")
 }
